@@ -39,6 +39,9 @@ func firstLine(s string) string {
 			return l
 		}
 	}
+	if strings.Contains(s, "(error ") {
+		return "error"
+	}
 	return "unknown"
 }
 
@@ -97,6 +100,13 @@ func runSolversV(files []string, timeoutS int, all bool, skipCvc5 bool) solveRes
 		o := <-ch
 		res.all[o.name] = o.res
 		outs = append(outs, fmt.Sprintf("[%s %dms] %s", o.name, o.ms, strings.TrimSpace(o.out)))
+		if o.res == "error" {
+			res.result = "error"
+			res.output = o.out
+			res.backend = o.name
+			cancel()
+			return res
+		}
 		if o.res == "unsat" || o.res == "sat" {
 			if res.result == "unknown" || (o.res == "sat" && res.result == "unsat" && all) {
 				if !(res.result == "sat") {
